@@ -92,6 +92,8 @@ def classify(sh, pos_of, regs):
     kinds = [d["kind"] if (i == 0 or d["kind"] != "Always") else "Cond" for i, d in enumerate(sh)]
     for i, k in enumerate(kinds):
         if k == "Always" and i not in executed:
+            if i == 0 and not executed:
+                return None      # the frame is created at an unconditional first statement: no frame, nothing replayed
             return "defer-always-replayed-though-never-reached"
     # groups: maximal runs of InLoop statements in compile order
     grp, g = [], 0
@@ -261,7 +263,7 @@ def run(ck):
     ck.phase("programs run")
     # model vs llgo
     hdr = "From LLGoV Require Import C04.Model.\nLocal Open Scope N_scope.\n"
-    model = "(fun c => map printed (machine_eff (fst c) (snd c)))"
+    model = "(fun c => map printed (machine_frame (fst c) (snd c)))"
     eqb = "list_eqb (prod_eqb Nat.eqb (option_eqb N.eqb))"
     bad = set(ck.coq_mismatches(hdr, cases, model, eqb, "c04_machine")) if cases else set()
     nknown = collections.Counter()
@@ -278,7 +280,7 @@ def run(ck):
         ck.violation(key, "f%d(%d) (generator seed %d): deferred calls under llgo %s, Go %s" % (m["fn"], m["in"], m["seed"], m["llgo_calls"][:8], m["go_calls"][:8]), m)
     # recover / re-panic outcomes predicted by the model from the executed defers and the body's panic
     if ocases:
-        obad = ck.coq_mismatches(hdr, ocases, "(fun c => machine_outcome (fst (fst (fst c))) (snd (fst (fst c))) (snd (fst c)) (snd c))",
+        obad = ck.coq_mismatches(hdr, ocases, "(fun c => machine_frame_outcome (fst (fst (fst c))) (snd (fst (fst c))) (snd (fst c)) (snd c))",
                                  "prod_eqb (list_eqb Bool.eqb) Bool.eqb", "c04_outcome")
         for i in obad:
             m = ometa[i]
